@@ -126,3 +126,14 @@ func settleWithin(timeout time.Duration) error {
 		}
 	}
 }
+
+// quietNow reports whether, right now, every relevant goroutine other than the caller is parked.
+func quietNow() bool {
+	for i, g := range snapshot() {
+		if i == 0 || !relevantG(g) || parkedG(g) {
+			continue
+		}
+		return false
+	}
+	return true
+}
